@@ -573,6 +573,10 @@ func grpcExtractTimeoutFromHeaders(headers http.Header, meta *requestMeta) error
 		return nil
 	}
 	timeout, err := grpcDecodeTimeout(timeoutStr)
+	if errors.Is(err, errNoTimeout) {
+		// effectively unbounded: treat as if no timeout was sent
+		return nil
+	}
 	if err != nil {
 		return err
 	}
